@@ -104,15 +104,23 @@ func infoFromCell(cell *hrpc.Cell) (hrpc.RegionInfo, error) {
 	if regInfo.TableName == nil {
 		return nil, fmt.Errorf("no table name in %q", cell)
 	}
-	// The name of the region is the key of the regions cache and Compare
-	// panics if it doesn't look like "table,startkey,id".
-	if i := bytes.IndexByte(cell.Row, ','); i < 0 || bytes.LastIndexByte(cell.Row, ',') == i {
-		return nil, fmt.Errorf("invalid region name in %q", cell)
-	}
 	var namespace []byte
 	if !bytes.Equal(regInfo.TableName.Namespace, defaultNamespace) {
 		// if default namespace, pretend there's no namespace
 		namespace = regInfo.TableName.Namespace
+	}
+	// The name of the region is the key of the regions cache, which relies
+	// on names being ordered by table and start key (and Compare panics if a
+	// name doesn't look like "table,startkey,id"): the name has to be the
+	// one of this very region.
+	prefix := make([]byte, 0, len(namespace)+len(regInfo.TableName.Qualifier)+len(regInfo.StartKey)+3)
+	if len(namespace) > 0 {
+		prefix = append(append(prefix, namespace...), ':')
+	}
+	prefix = append(append(prefix, regInfo.TableName.Qualifier...), ',')
+	prefix = append(append(prefix, regInfo.StartKey...), ',')
+	if !bytes.HasPrefix(cell.Row, prefix) {
+		return nil, fmt.Errorf("invalid region name in %q", cell)
 	}
 
 	return NewInfo(
